@@ -317,6 +317,15 @@ namespace Pistache::Http::Experimental
         if (!conn)
             throw std::runtime_error("Send request error");
 
+        // The connection may have been closed since this request was queued
+        // for this thread (the peer closed it in the meantime): its descriptor
+        // number is stale then and may name any other descriptor by now
+        if (!conn->isConnected())
+        {
+            conn->handleError("Could not send request");
+            return;
+        }
+
         auto fd = conn->fd();
 
         ssize_t totalWritten = 0;
